@@ -402,8 +402,14 @@ type c12ScribDst struct {
 	// interface-typed members that hold scribbling unmarshalers (found at run time)
 	IJ gojson.Unmarshaler
 	IT encoding.TextUnmarshaler
+	IC c12CtxUnmarshaler
 	Z  string
 	N  gojson.Number
+}
+
+// c12CtxUnmarshaler: the context flavour of the unmarshaler interface, as a member type.
+type c12CtxUnmarshaler interface {
+	UnmarshalJSON(context.Context, []byte) error
 }
 
 // c12ScribblerCase: members decoded before and behind a scribbling unmarshaler, and the next
@@ -411,12 +417,12 @@ type c12ScribDst struct {
 func c12ScribblerCase(c *rt.Ctx, sub int, r *rand.Rand, entry string) {
 	pad := strings.Repeat("p", r.Intn(700))
 	one := func(i int) string {
-		return fmt.Sprintf(`{"A":"before%d%s","J":{"k":[%d,"x"]},"B":[%d,2,3],"C":[%d,{"c":"v"}],"D":{"k":"v%d"},"T":"text%d","JL":[{"a":%d},"s",[%d]],"IJ":{"ij":[%d]},"IT":"itext%d","Z":"after%d","N":%d.5}`, i, pad, i, i, i, i, i, i, i, i, i, i, i)
+		return fmt.Sprintf(`{"A":"before%d%s","J":{"k":[%d,"x"]},"B":[%d,2,3],"C":[%d,{"c":"v"}],"D":{"k":"v%d"},"T":"text%d","JL":[{"a":%d},"s",[%d]],"IJ":{"ij":[%d]},"IT":"itext%d","IC":[%d,{"ic":"w"}],"Z":"after%d","N":%d.5}`, i, pad, i, i, i, i, i, i, i, i, i, i, i, i)
 	}
 	check := func(v *c12ScribDst, i int) string {
 		want := c12ScribDst{A: fmt.Sprintf("before%d%s", i, pad), J: c12ScribJSON{fmt.Sprintf(`{"k":[%d,"x"]}`, i)}, B: []int{i, 2, 3}, C: c12ScribCtx{fmt.Sprintf(`[%d,{"c":"v"}]`, i)},
 			D: map[string]string{"k": fmt.Sprintf("v%d", i)}, T: c12ScribText{fmt.Sprintf("text%d", i)}, Z: fmt.Sprintf("after%d", i), N: gojson.Number(fmt.Sprintf("%d.5", i)),
-			IJ: &c12ScribJSON{fmt.Sprintf(`{"ij":[%d]}`, i)}, IT: &c12ScribText{fmt.Sprintf("itext%d", i)}}
+			IJ: &c12ScribJSON{fmt.Sprintf(`{"ij":[%d]}`, i)}, IT: &c12ScribText{fmt.Sprintf("itext%d", i)}, IC: &c12ScribCtx{fmt.Sprintf(`[%d,{"ic":"w"}]`, i)}}
 		got := *v
 		jl := got.JL
 		got.JL = nil
@@ -444,7 +450,7 @@ func c12ScribblerCase(c *rt.Ctx, sub int, r *rand.Rand, entry string) {
 		dec = gojson.NewDecoder(bytes.NewReader(in))
 	}
 	for i := 0; i < n; i++ {
-		v := c12ScribDst{IJ: &c12ScribJSON{}, IT: &c12ScribText{}}
+		v := c12ScribDst{IJ: &c12ScribJSON{}, IT: &c12ScribText{}, IC: &c12ScribCtx{}}
 		var err error
 		pan, msg, _ := rt.Guard(func() {
 			switch entry {
